@@ -20,6 +20,8 @@ Necessary conditions of "no leak, no double free, aliasing inserts, same returne
         cap_-first_, read_size() = read_end_-first_, ...), exactly `advanced pointer + n <= cap_`
 Declined: equivalence with std::vector over operation histories, the growth policy, element values.
 """
+import re
+
 from engine import facts as F
 from engine import load
 from engine import lrules as L
@@ -271,6 +273,8 @@ def main(rep, tier, only):
     rep.rule("ALIAS", "insert(pos, T const&) / insert(pos, n, T const&) never read the value parameter after writing element storage", floor=2)
     rep.rule("RET", "erase returns its first iterator parameter; insert(pos, v) returns begin()+offset / pos", floor=3)
     rep.rule("BUF", "buffer::release hands (first_, read_end_, cap_) and nulls the buffer; to_raw_vector uses release()", floor=2)
+    rep.rule("EQ", "raw_vector operator== is `sizes equal && equal(left.begin(), left.end(), right.begin())`", floor=1)
+    rep.rule("WRITTEN", "append_from / append_from_opt hand the callback's element count to buffer::written() unchanged", floor=2)
     rep.rule("OWN-3", "a member that overwrites the whole impl_ of an existing object has released the old storage on that path first, or is a swap", floor=3)
     rep.rule("CAP", "every in-place advance of an end pointer is dominated by a guard equal, by linear normalisation over the pointer fields, "
                     "to `new end <= cap_` (functions whose contract puts the bound on the caller are listed as contract)", floor=4)
@@ -405,6 +409,55 @@ def main(rep, tier, only):
             ok = reps and [a.split(".")[-1] for a in args[1:]] == want and any(q.endswith("::release_internal") for q, n in seq)
             (rep.ok if ok else rep.fail)("BUF", key, F.primary_site(fn), F.describe(fn)[:160],
                                          **({"how": "(first_, read_end_, cap_);nulled"} if ok else {"why": "rep is built from %s (expected first_, read_end_, cap_) or the buffer is not nulled" % args}))
+    # ---- EQ: raw_vector == is "same size and equal elements" (a shorter vector that is a prefix is not equal)
+    seen_eq = set()
+    for fn in db.functions:
+        if fn.get("op") != "==" or len(fn.get("params", [])) != 2:
+            continue
+        u = fn["_unit"]
+        pts = [F.strip_targs((u.ty(p_["t"]) or "").replace("const ", "").replace(" &", "")) for p_ in fn["params"]]
+        if pts != [RV, RV] or F.primary_site(fn) in seen_eq:
+            continue
+        seen_eq.add(F.primary_site(fn))
+        a, b = fn["params"][0]["name"], fn["params"][1]["name"]
+        rets = [r for r in F.walk(fn.get("body"), into_lambdas=False) if r.get("k") == "return"]
+        t = T.snorm(u, fn, rets[0]["e"]) if len(rets) == 1 else None
+        why = "operator== is not a single expression"
+        if isinstance(t, tuple) and t[0] == "b" and t[1] == "&&":
+            l, r = T.show(t[2]).replace(" ", ""), T.show(t[3]).replace(" ", "")
+            size_ok = l in ("(%s.size()==%s.size())" % (a, b), "(%s.size()==%s.size())" % (b, a))
+            eq_ok = bool(re.match(r"^equal\(%s\.begin\(\),%s\.end\(\),%s\.begin\(\)(,%s\.end\(\))?\)$" % (a, a, b, b), r))
+            why = None if size_ok and eq_ok else "operator== is `%s && %s`; expected `sizes equal && equal(left.begin(), left.end(), right.begin())`" % (T.show(t[2]), T.show(t[3]))
+        elif isinstance(t, tuple) and t[0] == "c" and str(t[1]).endswith("equal") and len(t[3]) == 4:
+            why = None   # four-iterator std::equal compares the lengths itself
+        (rep.fail if why else rep.ok)("EQ", "raw_vector operator==", F.primary_site(fn), F.describe(fn)[:160], **({"why": why} if why else {"how": "size == size && equal(...)"}))
+    # ---- WRITTEN: the count handed to buffer::written() by the append / read helpers is the callback's result itself
+    seen_w = set()
+    for fn in db.functions:
+        name = F.fn_name(fn)
+        u = fn["_unit"]
+        if not name.startswith("fcppt::container::buffer::") or name.startswith(BUF) or not u.file_of(fn["primary"]).startswith("libs/"):
+            continue
+        top = F.top_function(fn)
+        if top is not fn:
+            continue
+        for (n, d, q) in L.calls_in(u, fn.get("body"), into_lambdas=True):
+            if not q.endswith("buffer::object::written") or not n.get("args"):
+                continue
+            key = "%s|written" % F.fn_name(top).replace("fcppt::container::", "")
+            if key in seen_w:
+                continue
+            seen_w.add(key)
+            arg = n["args"][0]
+            arith = [m for m in F.walk(arg) if m.get("k") in ("binop", "compound_assign") and m.get("op") in ("+", "-", "*", "/", "%")]
+            at = T.show(T.snorm(u, fn, arg))
+            calls_fn = any(m.get("k") == "call" and (m.get("fn") is not None or (m.get("recv") is not None and (T.unwrap(u, m["recv"]) or {}).get("dk") == "param")) for m in F.walk(arg))
+            own = T.unwrap(u, arg)
+            is_param = own is not None and own.get("k") == "ref" and own.get("dk") == "param"   # the continuation's parameter: the callback's payload
+            ok = not arith and (calls_fn or is_param)
+            (rep.ok if ok else rep.fail)("WRITTEN", key, u.loc(n["loc"]), F.describe(top)[:160],
+                                         **({"how": "callback result passed on unchanged"} if ok else
+                                            {"why": "written(%s): the number of elements the callback reports as written must be passed on unchanged (it counts from the start of the write area)" % at}))
     for fn in db.fns("fcppt::container::buffer::to_raw_vector"):
         u = fn["_unit"]
         t = " ".join(T.show(T.norm(u, r["e"])) for r in F.walk(fn.get("body")) if r.get("k") == "return")
